@@ -9,9 +9,12 @@ pub struct Panicked {
 }
 
 impl Panicked {
-    /// location without the line number's column and with the repo prefix stripped
+    /// Signature of the panic that survives unrelated edits: file (no line number) and message class.
     pub fn file_line(&self) -> String {
-        self.loc.clone()
+        let f = self.file();
+        let f = f.rsplit("library/").next().unwrap_or(&f).to_string();
+        let m: String = self.msg_class().chars().map(|c| if c.is_ascii_alphanumeric() || c == '#' { c } else { '_' }).collect();
+        format!("{}~{}", f, m)
     }
     pub fn file(&self) -> String {
         self.loc.split(':').next().unwrap_or("").to_string()
@@ -20,7 +23,11 @@ impl Panicked {
     pub fn msg_class(&self) -> String {
         let mut out = String::new();
         let mut in_digits = false;
-        for c in self.msg.chars().take(80) {
+        for c in self.msg.chars().take(60) {
+            if c == '|' || c == '\n' {
+                out.push(' ');
+                continue;
+            }
             if c.is_ascii_digit() {
                 if !in_digits {
                     out.push('#');
